@@ -28,6 +28,9 @@ structure AnnInv (s : State) (L : Held) : Prop where
   pubListed : s.cfg.mode = .full → ∀ g ∈ s.objs, g.published = true →
     ∃ k f, getF s.fdts k = some f ∧ g.key ∈ f.content
   holds : Holds (npkOf s.fdtPkts) AnnP s.log
+  /-- admission: in `ObjectsBeingTransferred` mode the automatic publication at transfer start must not be
+      refused (otherwise the object goes out unannounced: finding sched-3) -/
+  fits : s.cfg.mode = .being → s.cfg.fdtFits = true
 
 /-- transfer of the invariant to a state that differs only in parts the invariant does not read -/
 theorem AnnInv.of_same {s s' : State} {L L' : Held} (h : AnnInv s L)
@@ -51,7 +54,8 @@ theorem AnnInv.of_same {s s' : State} {L L' : Held} (h : AnnInv s L)
     pubListed := fun hmode g' hg' hp => by
       obtain ⟨g, hg, e, hgp⟩ := hobjs g' hg' hp
       rw [hfdts, ← e]; exact h.pubListed (hcfg ▸ hmode) g hg hgp
-    holds := by rw [htbl]; exact hholds }
+    holds := by rw [htbl]; exact hholds
+    fits := by rw [hcfg]; exact h.fits }
 
 def Neutral : Ev → Prop
   | .pub .. => False
@@ -254,7 +258,8 @@ theorem AnnInv.ofPublish {s : State} {L : Held} (now : Nat) (h : AnnInv s L)
         exact ⟨k, f, hold k f hf, hc⟩
     holds := by
       show Holds _ AnnP (Ev.pub _ _ _ :: s.log)
-      exact ⟨h.holds, trivial⟩ }
+      exact ⟨h.holds, trivial⟩
+    fits := h.fits }
 
 theorem fdtPop_fdts (s : State) : (fdtPop s).fdts = s.fdts := by unfold fdtPop; split <;> rfl
 theorem fdtPop_log (s : State) : (fdtPop s).log = s.log := by unfold fdtPop; split <;> rfl
@@ -362,7 +367,10 @@ theorem AnnInv.ofFdtAdvance {s : State} {L : Held} (now : Nat) (hw : Wf s L) (h 
       holds := by
         show Holds (npkOf (fdtPop s).fdtPkts) AnnP (Ev.fdtStart now k :: (fdtPop s).log)
         rw [fdtPop_fdtPkts, fdtPop_log]
-        exact ⟨h.holds, trivial⟩ }
+        exact ⟨h.holds, trivial⟩
+      fits := by
+        show (fdtPop s).cfg.mode = .being → (fdtPop s).cfg.fdtFits = true
+        rw [fdtPop_cfg]; exact h.fits }
 
 theorem AnnInv.ofFdtPkt {s : State} {L : Held} {c : Cur} {f : FileDesc} {now idx : Nat} {b : Bool} {e : Enc}
     (hw : Wf s L) (h : AnnInv s L) (hc : s.fdtSess = some c) (hf : getF s.fdts c.key = some f)
@@ -430,7 +438,8 @@ theorem AnnInv.ofFdtPkt {s : State} {L : Held} {c : Cur} {f : FileDesc} {now idx
     pubListed := by rw [hfd]; exact h.pubListed
     holds := by
       show Holds _ AnnP (Ev.fdt _ _ _ _ :: s.log)
-      exact ⟨h.holds, trivial⟩ }
+      exact ⟨h.holds, trivial⟩
+    fits := h.fits }
 
 theorem fdtRelease_eq {s : State} {L : Held} {c : Cur} (now : Nat) (hw : Wf s L) (hc : s.fdtSess = some c) :
     fdtRelease s c.key now =
@@ -500,7 +509,8 @@ theorem AnnInv.ofFdtDone {s : State} {L : Held} {c : Cur} {f : FileDesc} {now : 
       exact ⟨k', f', hf', by rw [ec]; exact hcc⟩
     holds := by
       show Holds _ AnnP (Ev.fdtStop _ _ :: s.log)
-      exact ⟨h.holds, trivial⟩ }
+      exact ⟨h.holds, trivial⟩
+    fits := h.fits }
 
 theorem AnnInv.ofFileStart {s : State} {L : Held} {prio now t : Nat} (tk : Nat) (hw : Wf s L) (h : AnnInv s L)
     (hfn : findNext s prio now s.queue = some t) :
@@ -530,6 +540,10 @@ theorem AnnInv.ofFileStart {s : State} {L : Held} {prio now t : Nat} (tk : Nat) 
         · exact h1.listed pc hpc }
   | being =>
     simp only []
+    have hfit : (fileStartStep s t now tk).cfg.fdtFits = true := h1.fits hmode
+    have hpt : publishTry (fileStartStep s t now tk) now = publish (fileStartStep s t now tk) now := by
+      unfold publishTry; rw [if_pos hfit]
+    rw [hpt]
     have hnew : getF (fileStartStep s t now tk).fdts (fileStartStep s t now tk).fdts.length = none :=
       hw1.getF_new
     have h2 := h1.ofPublish now hnew
@@ -646,7 +660,8 @@ theorem AnnInv.closedOps : ClosedOps Wf AnnInv where
   complete := fun _ _ _ h =>
     h.of_same rfl rfl h.holds rfl rfl rfl rfl rfl (fun g hg hp => ⟨g, hg, rfl, hp⟩) (fun pc hpc => ⟨pc, hpc, rfl⟩)
 
-theorem AnnInv.init (cfg : Cfg) (tbl : List Nat) : AnnInv (Sched.init cfg tbl) [] where
+theorem AnnInv.init (cfg : Cfg) (tbl : List Nat) (hfit : cfg.mode = .being → cfg.fdtFits = true) :
+    AnnInv (Sched.init cfg tbl) [] where
   pubsFdt := fun k files hk => by simp [mon, Sched.init, Mon.run] at hk
   fdtPubs := fun k f hf => by simp [Sched.init, getF] at hf
   progress := fun k f hf => by simp [Sched.init, getF] at hf
@@ -655,11 +670,12 @@ theorem AnnInv.init (cfg : Cfg) (tbl : List Nat) : AnnInv (Sched.init cfg tbl) [
   listed := fun pc hpc => by simp at hpc
   pubListed := fun _ g hg => by simp [Sched.init] at hg
   holds := trivial
+  fits := hfit
 
 /-- `Wf ∧ AnnInv` after every operation history -/
-theorem ann_run (cfg : Cfg) (tbl : List Nat) (ops : List Op) :
+theorem ann_run (cfg : Cfg) (tbl : List Nat) (ops : List Op) (hfit : cfg.mode = .being → cfg.fdtFits = true) :
     And2 Wf AnnInv (run (Sched.init cfg tbl) ops) (heldOf (run (Sched.init cfg tbl) ops)) :=
   inv_run (Closed.and Wf.closed AnnInv.closed) (ClosedOps.and Wf.closedOps AnnInv.closedOps) cfg tbl
-    ⟨Wf.init cfg tbl, AnnInv.init cfg tbl⟩ ops
+    ⟨Wf.init cfg tbl, AnnInv.init cfg tbl hfit⟩ ops
 
 end Flute.Sched
